@@ -30,10 +30,10 @@ func WalkPaths(fn *ssa.Function, maxPaths int) ([]PathSummary, string) {
 	errS := ""
 	base := NewTermer(fn)
 	type frame struct {
-		env   map[ssa.Value]string
-		mem   map[string]string // lvalue path -> term, for non-escaping local allocs
-		conds []string
-		effs  []string
+		env    map[ssa.Value]string
+		mem    map[string]string // lvalue path -> term, for non-escaping local allocs
+		conds  []string
+		effs   []string
 		onPath map[int]bool
 	}
 	cloneF := func(f frame) frame {
